@@ -59,3 +59,10 @@ func lemmaKeyRoundTrip(buf []byte, prevKey, key string, extra uint8, i int) (k2 
 	m, k2, v2, ok := decodeKey(buf[:n], prevKey)
 	return k2, v2, true, ok && m == n
 }
+
+// lemmaSeekModelConsistent (C02): the assumptions every C02 clause is conditional on (the abstract view of a
+// writer-produced table, verif_contracts.go) are not contradictory: the cover query behind this function's
+// precondition - a reader with a ref section and a multi-block index, an iterator landed in an index block with a
+// successor - must not be refuted. A contradiction in the view would otherwise make every C02 obligation vacuous.
+func lemmaSeekModelConsistent(r *Reader, i *tableIter, key string) {
+}
